@@ -53,6 +53,10 @@ func normalizeURI(refPath, base string) string {
 		refURL.Path = ""
 	}
 
+	if refURL.Scheme == fileScheme {
+		refURL.RawQuery = "" // any query component is irrelevant for a local file
+	}
+
 	r := MustCreateRef(refURL.String())
 	if r.IsCanonical() {
 		return refURL.String()
